@@ -36,8 +36,9 @@ import AmVerif.Proofs.SyncRounds
       them, and the other side answers with the reset message); the proof uses a weaker session
       invariant that survives third-party deliveries.
   STILL MISSING for the full statement: progress for n peers (the pair lemma under the weak
-  invariants, including the reset-message branch; see `C21Progress.lean` for the exact statement
-  and for why it cannot hold for every `fp`: `C21_forced_fp_defeats_reset`).
+  invariants, including the reset-message branch; see `C21Progress.lean` for the exact statement;
+  the reset branch works under forced false positives since the hook is not consulted for an empty
+  filter: `C21_reset_recovers_under_forced_fp`).
 -/
 namespace AmVerif.Props.C21
 open AmVerif AmVerif.Sync
